@@ -44,37 +44,90 @@ def ob_generated_count(ctx, res):
             res.fail("generated/field-%d" % i, f, "FIELDS[%d] must declare exactly one field; `%s` declares %d" % (i, f.get("v", "?")[:40], _decls(f.get("v", ""))))
             return
     N = len(fields)
-    # e: number of tab-separated columns of rest (0 if empty)
-    e_let = binding_before(fn, "extra_fields", fn.body["stmts"][-1])
-    et = up(e_let[1]["init"]) if e_let is not None else ""
-    if not re.fullmatch(r"if rest\.is_empty\(\) \{0\} else \{rest\.split\('\\t'\)\.count\(\)\}", et):
-        res.fail("generated/extra-count", fn, "extra field count must be 0 for an empty rest, else the number of tab-separated columns; got `%s`" % et)
-        return
-    loops = [n for n in walk_no_nested_fn(fn.body) if n.k == "for"]
-    if len(loops) != 2:
-        res.fail("generated/loops", fn, "expected the named-field loop and the generic-field loop")
-        return
-    l1, l2 = up(strip(loops[0]["iter"])), up(strip(loops[1]["iter"]))
-    if l1.replace(" ", "").lstrip("&") != "FIELDS[0..extra_fields.min(FIELDS.len())]":
-        res.fail("generated/named-range", loops[0], "named fields must be FIELDS[0 .. min(e, N)]; got `%s`" % l1)
-        return
-    if l2.replace(" ", "") != "FIELDS.len()..extra_fields.max(FIELDS.len())":
-        res.fail("generated/generic-range", loops[1], "generic fields must cover N .. max(e, N); got `%s`" % l2)
-        return
-    fm = [n for n in walk_no_nested_fn(loops[1]["body"]) if n.k == "macro" and n["path"] == "format"]
-    if len(fm) != 1 or _decls(fm[0]["args"][0]["v"]) != 1 or up(strip(fm[0]["args"][1])).replace(" ", "") != "%s+3+1" % up(loops[1]["pat"]):
-        res.fail("generated/generic-field", loops[1], "each generic iteration must declare exactly one field named field<i+3+1>")
-        return
-    pushes = [c for c in calls(loops[0]["body"], method="push_str")] + [c for c in calls(loops[1]["body"], method="push_str")]
-    if len(pushes) != 2:
-        res.fail("generated/pushes", fn, "each loop iteration must append exactly one declaration")
-        return
-    # arithmetic: min(e,N) + (max(e,N) - N) = e for every e >= 0  (checked symbolically over e <,=,> N)
-    for e, n in ((0, 2), (1, 2), (2, 2), (3, 2), (5, 2)):
-        if min(e, n) + (max(e, n) - n) != e:
-            res.fail("generated/arith", fn, "field count arithmetic broken")
+    # the generator is a pure string builder: it is evaluated for every number of extra columns e = 0 .. N+3 (both sides of the named / generic
+    # field boundary) and the declarations of the result are counted
+    from ..rules.interp import Interp, NotPure
+    FIELDS_V = [f["v"] for f in fields]
+    holder = [None]
+
+    def method(m, recv, args):
+        if isinstance(recv, str):
+            if m == "is_empty" and not args:
+                return recv == ""
+            if m == "split" and len(args) == 1 and isinstance(args[0], str):
+                return recv.split(args[0])
+            if m in ("to_string", "to_owned", "as_str", "into", "clone") and not args:
+                return recv
+            if m == "len" and not args:
+                return len(recv)
+        if isinstance(recv, list):
+            if m in ("count", "len") and not args:
+                return len(recv)
+            if m in ("iter", "into_iter", "copied", "cloned") and not args:
+                return list(recv)
+            if m == "take" and len(args) == 1 and isinstance(args[0], int):
+                return recv[:max(0, args[0])]
+            if m == "skip" and len(args) == 1 and isinstance(args[0], int):
+                return recv[max(0, args[0]):]
+            if m == "for_each" and len(args) == 1:
+                for x in recv:
+                    holder[0].apply_closure(args[0], [x])
+                return None
+            if m == "enumerate" and not args:
+                return [(i, x) for i, x in enumerate(recv)]
+            if m == "collect" and not args:
+                return recv
+            if m == "join" and len(args) == 1 and isinstance(args[0], str):
+                return args[0].join(recv)
+        if isinstance(recv, tuple) and len(recv) == 3 and recv[0] == "range" and m == "for_each" and len(args) == 1:
+            for x in range(recv[1], recv[2]):
+                holder[0].apply_closure(args[0], [x])
+            return None
+        if isinstance(recv, tuple) and len(recv) == 3 and recv[0] == "range" and m == "map" and len(args) == 1:
+            return [holder[0].apply_closure(args[0], [x]) for x in range(recv[1], recv[2])]
+        raise NotPure("method %s on %s" % (m, type(recv).__name__))
+
+    def binop(op, a_, b_):
+        if isinstance(a_, int) and isinstance(b_, int) and op in ("+", "-", "*"):
+            return a_ + b_ if op == "+" else (a_ - b_ if op == "-" else a_ * b_)
+        if isinstance(a_, str) and isinstance(b_, str) and op == "+":
+            return a_ + b_
+        raise NotPure("arithmetic")
+
+    def macro(n, args):
+        if n["path"] == "format" and args and isinstance(args[0], str):
+            out, rest_ = args[0], list(args[1:])
+            while "{}" in out and rest_:
+                out = out.replace("{}", str(rest_.pop(0)), 1)
+            return out
+        raise NotPure("macro " + n["path"])
+    bad = None
+    for e in range(0, N + 4):
+        rest = "\t".join("c%d" % i for i in range(e))
+        itp = Interp(ctx.ast, A, extern={"None": None, "method": method, "binop": binop, "macro": macro, "FIELDS": FIELDS_V}, max_steps=50000)
+        holder[0] = itp
+        try:
+            out = itp.call(fn, [rest])
+        except NotPure as x:
+            res.undecided("generated/not-evaluable", fn, "bed_autosql is outside the fragment the rule evaluates (%s)" % x)
             return
-    res.ok(fn, "generated schema: 3 fixed fields + FIELDS[0..min(e,%d)] (one declaration each) + generic fields %d..max(e,%d) (one each) = 3 + e for every e" % (N, N, N))
+        if not isinstance(out, str):
+            bad = "for %d extra columns the generator returns %r" % (e, out)
+            break
+        names = re.findall(r"(\w+)\s*;", re.sub(r'"[^"]*"', "", out))
+        if _decls(out) != 3 + e:
+            bad = "for a line with %d extra column(s) the generated schema declares %d fields, the records have %d" % (e, _decls(out), 3 + e)
+            break
+        if len(set(names)) != len(names):
+            bad = "for %d extra columns the generated schema declares a field name twice (%s)" % (e, sorted(x for x in names if names.count(x) > 1)[0])
+            break
+        if not out.rstrip().endswith(")"):
+            bad = "the generated schema is not closed with `)` (for %d extra columns)" % e
+            break
+    if bad:
+        res.fail("generated/count", fn, bad)
+        return
+    res.ok(fn, "generated schema evaluated for e = 0..%d extra columns: 3 fixed fields + the first min(e,%d) named fields + generic fields beyond = 3 + e declarations, names distinct, list closed" % (N + 3, N))
     res.count("FIELDS", N)
 
 
@@ -271,8 +324,8 @@ def ob_slice_provenance(ctx, res):
             if x.k == "assign" and up(strip(x["l"])) in ("self.start_cursor", "self.end_cursor"):
                 n += 1
                 r = up(strip(x["r"]))
-                ok = r in ("self.start_cursor", "self.end_cursor", "self.data.len()", "index") or re.fullmatch(r"(\w+) \+ self\.start_cursor", r) or \
-                    re.fullmatch(r"start \+ (\w+)\.0", r) or re.fullmatch(r"(\w+) \+ start", r)
+                ok = r in ("self.start_cursor", "self.end_cursor", "self.data.len()", "index") or re.fullmatch(r"(\w+) \+ self\.start_cursor|self\.start_cursor \+ (\w+)", r) or \
+                    re.fullmatch(r"start \+ (\w+)\.0|(\w+)\.0 \+ start", r) or re.fullmatch(r"(\w+) \+ start|start \+ (\w+)", r)
                 if not ok:
                     res.fail("cursor/%s" % fn.name, x, "cursor assigned `%s`: not a char_indices position, the data length or another cursor" % r)
     res.count("slice_and_cursor_sites", n)
@@ -288,8 +341,17 @@ def ob_parser_tables(ctx, res):
     # (1) parse_declaration_list: the loop ends only on end of input (None) or an error
     fn = ctx.ast.fn(A, "parse_declaration_list")
     loops = [n for n in walk_no_nested_fn(fn.body) if n.k in ("loop", "while", "for")]
-    if len(loops) != 1 or loops[0].k != "loop":
-        res.fail("parserTables/list-loop", fn, "expected one `loop` over the declarations")
+    if len(loops) != 1:
+        res.undecided("parserTables/list-loop", fn, "expected one loop over the declarations, found %d" % len(loops))
+        return
+    if loops[0].k == "while" and strip(loops[0]["cond"]).k == "let_expr":
+        # `while let Some(d) = parse_declaration(parser)? { .. }`: the loop ends exactly when no further declaration is reported
+        c_ = strip(loops[0]["cond"])
+        if not (up(c_["pat"]).startswith("Some(") and "parse_declaration" in origin(fn, c_["e"])):
+            res.fail("parserTables/list-cap", loops[0], "the declaration loop must run until parse_declaration reports no further declaration; it runs while `%s`" % up(c_)[:80])
+            return
+    elif loops[0].k != "loop":
+        res.undecided("parserTables/list-loop", loops[0], "declaration loop is a `%s`: its exit is not decided" % loops[0].k)
         return
     for b in [n for n in walk_no_nested_fn(loops[0]["body"]) if n.k in ("break", "return")]:
         arm = b.parent
